@@ -64,6 +64,16 @@ def embed(env, Q, inner, pos):
         return q
     if pos == "insert-value":
         return Q.into(P.Table("t5")).insert(1, inner)
+    if pos == "orderby-item":
+        return Q.from_(o).select(o.k).orderby(o.j, inner)
+    if pos == "groupby-item":
+        return Q.from_(o).select(P.functions.Count("*")).groupby(inner, o.j)
+    if pos == "orderby-function-arg":
+        return Q.from_(o).select(o.k).orderby(P.functions.Coalesce(inner, 0))
+    if pos == "set-value":
+        return Q.update(P.Table("t5")).set("a", 1).set("b", inner).where(P.Table("t5").c == 3)
+    if pos == "do-update-value":
+        return Q.into(P.Table("t5")).insert(1, 2).on_conflict("a").do_update("b", inner)
     other = Q.from_(o).select(*[o.field("k%d" % i) for i in range(nsel(inner))])  # same arity as the inner query
     if pos == "setop-base":
         return inner.union(other)
